@@ -180,6 +180,20 @@ class World:
         self._next_request(p)
         return p
 
+    def _store_snapshot(self):
+        """Bytes of the four cluster files (+ what the version files and the submitter field say)."""
+        d = self.out
+        data = []
+        for n in ("cluster_config.json", "config_version.txt", "job_status.json", "job_status_version.txt"):
+            try:
+                with open(os.path.join(d, n), "rb") as f:
+                    data.append(f.read())
+            except FileNotFoundError:
+                data.append(None)
+        st = project.read_status(d) or {"sub": "", "cverf": -1, "jverf": -1}
+        return {"bytes": data, "sub": st["sub"], "cverf": project._read_int(os.path.join(d, "config_version.txt")),
+                "jverf": project._read_int(os.path.join(d, "job_status_version.txt"))}
+
     def _flush(self, p):
         for evd in p.deferred:
             self.ev(**evd)
@@ -270,6 +284,17 @@ class World:
                     after=(st["sub"] if st else ""), create=bool(r.get("create")))
         elif name == "demote":
             self.ev(e="demote", pid=p.pid, host=p.host, ok=r["ok"], exc=r["exc"], dir=self._dname(r["path"]))
+        elif name == "cop_begin":
+            p.cop = {"op": r["cop"], "hcver": r["hcver"], "hjver": r["hjver"], "loaded": r["loaded"], "pre": None}
+        elif name == "cop_end":
+            c = getattr(p, "cop", None) or {"op": "?", "hcver": -1, "hjver": -1, "loaded": False, "pre": None}
+            pre = c["pre"] or self._store_snapshot()
+            post = self._store_snapshot()
+            wc = c["op"] in ("loadp", "promote", "demote", "cancel", "update")
+            self.ev(e="cop", pid=p.pid, host=p.host, op=c["op"], hcver=c["hcver"], hjver=c["hjver"], loaded=c["loaded"],
+                    dcver=pre["cverf"], djver=pre["jverf"], before=pre["sub"], exc=r["exc"], ok=r["ok"],
+                    changed=pre["bytes"] != post["bytes"], wcfg=wc, wjs=c["op"] in ("update", "jsonly"))
+            p.cop = None
         elif name == "collected":
             self.ev(e="collected", pid=p.pid, dir=self._dname(os.path.dirname(r["path"])), rows=r["rows"])
         elif name in ("append", "appended"):
@@ -425,6 +450,8 @@ class World:
         if op == "begin":
             return self._reply(p, ok=True)
         if op == "lock_try":
+            if getattr(p, "cop", None) is not None and os.path.basename(r["path"]) == CLUSTER_LOCK:
+                p.cop["pre"] = self._store_snapshot()
             if arm and arm["op"] == "lock" and self._arm_hit(p, arm):
                 self.ev(e="fault", pid=p.pid, op="lock", path=os.path.basename(r["path"]))
                 return self._reply(p, fail=True)
